@@ -60,11 +60,11 @@ Theorem run_op_eff : forall fuel o h,
 Proof.
   intros fuel o h HI Hef Hpre. destruct fuel as [|f]; [cbn; exact I|].
   rewrite run_op_S. unfold bind at 1.
-  assert (Hlog : exists h1, (match o with ONop => ret tt | _ => log_op o end) h = Ok tt h1 /\ hinv [] h1 /\
+  assert (Hlog : exists h1, (match o with ONop | OFrameRef _ | OFrameUnref _ => ret tt | _ => log_op o end) h = Ok tt h1 /\ hinv [] h1 /\
                             wins h1 = wins h /\ nextw h1 = nextw h /\ (forall x y, anc h x y -> anc h1 x y)).
   { destruct o; try (eexists; split; [reflexivity|]; split; [apply hinv_log; exact HI|]; split; [reflexivity|]; split; [reflexivity|];
                      intros x0 y0 Ha; eapply anc_same_wins; [|exact Ha]; reflexivity).
-    exists h. split; [reflexivity|]. auto. }
+    all: (exists h; split; [reflexivity|]; auto). }
   destruct Hlog as [h1 [Hrun [HI1 [Hw1 [Hnw1 Hanc1]]]]]. rewrite Hrun.
   assert (Fw1 : forall a, findw h1 a = findw h a) by (intro a; unfold findw; rewrite Hw1; reflexivity).
   assert (Hst : forall h', stable h1 h' -> stable h h').
